@@ -64,7 +64,7 @@ fn dispatch_contract(lo: u8, hi: u8) {
             assert!(pcc == pc0 + 2 * pre, "OBL:C07/exec/dispatcher_consumes_exactly_the_prefix_words");
         }
         isa::Kind::Unimpl => {
-            let rej = allowed_rejector(exp.form);
+            let rej = allowed_rejector(exp.form, w[0]);
             let ok = (ncalls == 0 && res.is_err()) || (rej != 0 && ncalls == 1 && called == rej);
             unimpl_obligations!(exp.form, ok, [U_NOP, U_SLEEP, U_LDC_B_R, U_LDC_B_IMM, U_LDC_W, U_ORC, U_XORC, U_ANDC, U_SUBX_IMM, U_SUBX_RR, U_DAA, U_DAS,
                 U_EXTS_W, U_EXTS_L, U_MULXS, U_DIVXS, U_EEPMOV, U_MOVFPE, U_MOVTPE]);
@@ -98,5 +98,23 @@ fn c07_mov_b_rejects_movfpe_movtpe() {
     let exp = isa::step(&su.st0, &su.wd, &mut seam::InitView);
     assert!(exp.kind == isa::Kind::Unimpl, "OBL:SELF/reject/encoding_class");
     assert!(res.is_err() && cpu.er == er0 && seam().nw == 0, "OBL:C07/mov_b/rejects_MOVFPE_MOVTPE");
+    kani::cover!(true, "REACH:end");
+}
+
+#[kani::proof]
+#[kani::stub(Bus::read, seam::bus_read)]
+#[kani::stub(Bus::write, seam::bus_write)]
+#[kani::stub(Cpu::calc_state_with_addr, seam::cost)]
+fn c07_stc_w_disp24_rejects_ldc() {
+    let mut cpu = new_cpu();
+    let r: u16 = kani::any();
+    kani::assume(r & 0xff8f == 0x7800);
+    let w: [u16; 4] = [r, 0x6b20, kani::any::<u16>() & 0x00ff, kani::any()];
+    let su = setup(&mut cpu, PC_DEFAULT, 0xff, 0x01, 0x40, w, 2);
+    let er0 = cpu.er;
+    let res = cpu.stc_w_disp24(r);
+    let exp = isa::step(&su.st0, &su.wd, &mut seam::InitView);
+    assert!(exp.kind == isa::Kind::Unimpl && exp.form == isa::f::U_LDC_W, "OBL:SELF/reject_ldc/encoding_class");
+    assert!(res.is_err() && cpu.er == er0 && seam().nw == 0, "OBL:C07/stc_w_disp24/rejects_LDC_W_d24");
     kani::cover!(true, "REACH:end");
 }
